@@ -203,6 +203,16 @@ class C17(Prop):
                     got = {'n': s.count(), 'mean': s.mean(), 'sum': s.sum(), 'variance': s.variance(),
                            'sampleVariance': s.sampleVariance(), 'max': None, 'min': None,
                            'stdev': s.stdev(), 'sampleStdev': s.sampleStdev(), 'rdd': None}
+                    # "Summaries of an empty dataset report count 0 and NaN variance instead of failing": also through the
+                    # RDD-level shortcuts (an exception here is reported by the handler below); the mean of nothing may be
+                    # 0.0 or NaN, min / max of nothing are not summaries of anything and are not asked for
+                    short = {'count': rdd.count(), 'sum': rdd.sum(), 'mean': rdd.mean(), 'variance': rdd.variance(), 'stdev': rdd.stdev(),
+                             'sampleVariance': rdd.sampleVariance(), 'sampleStdev': rdd.sampleStdev(), 'meanApprox': rdd.meanApprox()}
+                    bad = [k for k in ('variance', 'stdev', 'sampleVariance', 'sampleStdev')
+                           if not (isinstance(short[k], float) and math.isnan(short[k]))]
+                    if short['count'] != 0 or short['sum'] != 0 or bad:
+                        return Mismatch('the shortcuts of an empty dataset do not report count 0 / sum 0 / NaN variances', short, None,
+                                        'C17:empty-shortcuts', relation='spec')
                 req = {'p': 'C17', 'op': 'stats', 'parts': [[q(x) for x in p] for p in case['parts']]}
             else:
                 vals = self.tree_vals(case['tree'])
